@@ -39,6 +39,23 @@ impl<'a> ExpressionReducer for UndefinedFunctionReducer<'a> {
                 name,
                 self.visit_expressions(args)?,
             )),
+            Expression::ArrayElement(name, args, expression_type) => Ok(Expression::ArrayElement(
+                name,
+                self.visit_expressions(args)?,
+                expression_type,
+            )),
+            Expression::Parenthesis(child) => {
+                let mapped_child = self.visit_expression_pos(*child)?;
+                Ok(Expression::Parenthesis(Box::new(mapped_child)))
+            }
+            Expression::Property(left, name, expression_type) => {
+                let mapped_left = self.visit_expression(*left)?;
+                Ok(Expression::Property(
+                    Box::new(mapped_left),
+                    name,
+                    expression_type,
+                ))
+            }
             _ => Ok(expression),
         }
     }
